@@ -393,12 +393,19 @@ fn run_gm<B: BmCtl>() -> RunInfo {
         let st = one_op(&mut w, tracked, step);
         cx().op_end(step as u64, 0);
         cx().mode = Mode::Setup;
+        cx().allowed.clear();
+        cx().allowed_writes_only = false;
+        let stray = cx().stray.take();
         cx().sys.io_script.clear();
         log.push(format!("a{} {} -> {:?}", cx().actor, st.desc, st.got));
         let line = log.last().unwrap().clone();
         // ----- C03: result and contents --------------------------------------------------------
         if let GO::Panic(m) = &st.got {
             cx().violate(prop_result, "C03/panic", format!("panic in {}", st.kind), format!("step {} {}: {}", step, line, m));
+            break;
+        }
+        if let Some(sv) = stray {
+            cx().violate(prop_result, "C03/stray-write", format!("{} wrote outside the bytes it names", st.kind), format!("step {} {}: {} (layout {:?})", step, line, sv, w.describe()));
             break;
         }
         if let Some(exp) = &st.exp {
@@ -480,6 +487,29 @@ fn run_gm<B: BmCtl>() -> RunInfo {
     RunInfo { nontrivial: ok_ops > 0 && rejected > 0, desc, cell: None }
 }
 
+/// The operation about to run may change only guest bytes [addr, addr + n) (clipped to the mapped run):
+/// any write access or reference the library makes to registered guest RAM outside them is recorded
+/// by the seam hooks (a concurrent update of such a byte by the guest would be lost).
+fn allow_writes<B: BmCtl>(w: &GmWorld<B>, ranges: &[(u64, usize)]) {
+    let c = cx();
+    c.allowed.clear();
+    for &(addr, n) in ranges {
+        let mut k = 0usize;
+        while k < n {
+            let Some(a) = addr.checked_add(k as u64) else { break };
+            let Some((i, off)) = w.find(a) else { break };
+            let m = (w.regs[i].size - off).min(n - k);
+            c.allowed.push((i as u32, off, off + m));
+            k += m;
+        }
+    }
+    if c.allowed.is_empty() {
+        c.allowed.push((u32::MAX, 0, 0));
+    }
+    c.allowed_writes_only = true;
+    c.stray = None;
+}
+
 /// complement of the current contents at `addr` (so that every written byte changes)
 fn compl<B: BmCtl>(w: &GmWorld<B>, addr: u64, n: usize) -> Vec<u8> {
     (0..n)
@@ -506,6 +536,7 @@ fn one_op<B: BmCtl>(w: &mut GmWorld<B>, tracked: bool, step: usize) -> Step {
             let n = gen_nlen(room);
             let data = compl(w, addr, n);
             let buf = LocalBuf::new(n, cx().a(8) as usize, |i| data[i]);
+            allow_writes(w, &[(addr, room.min(n))]);
             if kind == 0 {
                 st.kind = "write";
                 st.desc = format!("write(buf[{}], {:#x})", n, addr);
@@ -529,6 +560,7 @@ fn one_op<B: BmCtl>(w: &mut GmWorld<B>, tracked: bool, step: usize) -> Step {
             let n = gen_nlen(room);
             let mut buf = LocalBuf::new(n, cx().a(8) as usize, |_| 0xAA);
             let k = room.min(n);
+            allow_writes(w, &[]);
             if kind == 1 {
                 st.kind = "read";
                 st.desc = format!("read(buf[{}], {:#x})", n, addr);
@@ -548,6 +580,7 @@ fn one_op<B: BmCtl>(w: &mut GmWorld<B>, tracked: bool, step: usize) -> Step {
             let ti = cx().a(20) as usize;
             let sz = TYPE_SIZES[ti];
             let k = room.min(sz);
+            allow_writes(w, &[(addr, if kind == 4 { k } else { 0 })]);
             if kind == 4 {
                 st.kind = "write_obj";
                 st.desc = format!("write_obj::<{}>({:#x})", TYPE_NAMES[ti], addr);
@@ -583,6 +616,7 @@ fn one_op<B: BmCtl>(w: &mut GmWorld<B>, tracked: bool, step: usize) -> Step {
                     }
                 }
             };
+            allow_writes(w, &[(addr, if kind == 6 && exp_ok.is_ok() { sz } else { 0 })]);
             if kind == 6 {
                 st.kind = "store";
                 st.desc = format!("store::<{}>({:#x})", ATOMIC_NAMES[ti], addr);
@@ -621,6 +655,7 @@ fn one_op<B: BmCtl>(w: &mut GmWorld<B>, tracked: bool, step: usize) -> Step {
             let mut plain = &data[..];
             let mut chunked = Chunked { data: &data[..], chunk, calls: 0 };
             let tag = if chunk == usize::MAX { "&[u8]".to_string() } else { format!("short-reading source (<= {} bytes per call)", chunk) };
+            allow_writes(w, &[(addr, moved)]);
             if kind == 8 {
                 st.kind = "read_volatile_from(stream)";
                 st.desc = format!("read_volatile_from({:#x}, {} of {} bytes, {})", addr, tag, m, count);
@@ -657,6 +692,7 @@ fn one_op<B: BmCtl>(w: &mut GmWorld<B>, tracked: bool, step: usize) -> Step {
                 1 => format!("short-writing sink (<= {} bytes per call)", chunk),
                 _ => "Cursor<&mut [u8]>".to_string(),
             };
+            allow_writes(w, &[]);
             if kind == 10 {
                 st.kind = "write_volatile_to(stream)";
                 st.desc = format!("write_volatile_to({:#x}, {}, {})", addr, tag, count);
@@ -707,6 +743,7 @@ fn one_op<B: BmCtl>(w: &mut GmWorld<B>, tracked: bool, step: usize) -> Step {
             let n = 1 + cx().a(vlen as u32 + 4) as usize;
             let data = compl(w, target, n);
             let mut rbuf = vec![0xAAu8; n];
+            allow_writes(w, &[(target, if writing && fits && vlen > 0 { n.min(vlen) } else { 0 })]);
             let r = catch(|| -> Result<usize, GErr> {
                 let s = w.gm.get_slice(ga, count)?;
                 let s = s.offset(o1.min(count)).map_err(GErr::from)?;
@@ -768,6 +805,18 @@ fn one_op<B: BmCtl>(w: &mut GmWorld<B>, tracked: bool, step: usize) -> Step {
             let at = MemoryRegionAddress(off as u64);
             let k = n.min(size - off.min(size));
             let aligned = (w.ptrs[i] as usize + off) % 4 == 0;
+            allow_writes(
+                w,
+                &[(
+                    gaddr,
+                    match form {
+                        0 | 2 | 7 | 9 if off < size => k,
+                        3 if off + 4 <= size && aligned => 4,
+                        4 if off.checked_add(n).map(|e| e <= size).unwrap_or(false) => n,
+                        _ => 0,
+                    },
+                )],
+            );
             match form {
                 0 => {
                     st.got = go_n(catch(|| reg.write(&data, at)));
@@ -856,6 +905,7 @@ fn one_op<B: BmCtl>(w: &mut GmWorld<B>, tracked: bool, step: usize) -> Step {
             st.kind = "queries";
             let n = gen_nlen(room);
             st.desc = format!("check_range/address_in_range/get_host_address/find_region({:#x}, {})", addr, n);
+            allow_writes(w, &[]);
             let r = catch(|| {
                 let a = w.gm.check_range(ga, n);
                 let b = w.gm.address_in_range(ga);
@@ -903,6 +953,7 @@ fn one_op<B: BmCtl>(w: &mut GmWorld<B>, tracked: bool, step: usize) -> Step {
                 st.exp = Some(GO::Unit);
             } else {
                 let src_bytes = w.model_read(addr, k);
+                allow_writes(w, &[(addr2, k)]);
                 let r = catch(|| -> Result<(), GErr> {
                     let s = w.gm.get_slice(ga, slen)?;
                     let d = w.gm.get_slice(GuestAddress(addr2), dlen)?;
@@ -946,6 +997,7 @@ fn one_op<B: BmCtl>(w: &mut GmWorld<B>, tracked: bool, step: usize) -> Step {
             cx().sys.io_log.clear();
             st.kind = if exact { "read_exact_volatile_from(File)" } else { "read_volatile_from(File)" };
             st.desc = format!("{}({:#x}, File, {}) syscall verdicts {:?}", st.kind, addr, count, verdicts);
+            allow_writes(w, &[(addr, room.min(count))]);
             st.got = if exact { go_u(catch(|| w.gm.read_exact_volatile_from(ga, &mut file, count))) } else { go_n(catch(|| w.gm.read_volatile_from(ga, &mut file, count))) };
             st.free_result = true;
             // apply what the system calls really did
@@ -981,6 +1033,7 @@ fn one_op<B: BmCtl>(w: &mut GmWorld<B>, tracked: bool, step: usize) -> Step {
             cx().sys.io_log.clear();
             st.kind = if exact { "write_all_volatile_to(File)" } else { "write_volatile_to(File)" };
             st.desc = format!("{}({:#x}, File, {})", st.kind, addr, count);
+            allow_writes(w, &[]);
             st.got = if exact { go_u(catch(|| w.gm.write_all_volatile_to(ga, &mut file, count))) } else { go_n(catch(|| w.gm.write_volatile_to(ga, &mut file, count))) };
             st.free_result = true;
             let moved: isize = cx().sys.io_log.iter().filter(|c| c.ret > 0).map(|c| c.ret).sum();
@@ -1032,6 +1085,7 @@ fn one_op<B: BmCtl>(w: &mut GmWorld<B>, tracked: bool, step: usize) -> Step {
             let mut calls: Vec<(usize, usize, u64, u64, usize)> = Vec::new();
             st.kind = if writing { "try_access(writing callback)" } else { "try_access(reading callback)" };
             st.desc = format!("try_access({}, {:#x}, callback {:?})", count, addr, script);
+            allow_writes(w, &[(addr, if writing { room.min(count) } else { 0 })]);
             let r = catch(|| {
                 w.gm.try_access(count, ga, |offset, len, start, region| {
                     let beh = script.get(calls.len()).copied().unwrap_or((0, 0));
@@ -1137,6 +1191,7 @@ fn one_op<B: BmCtl>(w: &mut GmWorld<B>, tracked: bool, step: usize) -> Step {
             let exact = cx().a(2) == 0;
             st.kind = if exact { "read_exact_volatile_from(scripted)" } else { "read_volatile_from(scripted)" };
             st.desc = format!("{}({:#x}, scripted {:?}, {})", st.kind, addr, script, count);
+            allow_writes(w, &[(addr, room.min(count))]);
             st.got = if exact { go_u(catch(|| w.gm.read_exact_volatile_from(ga, &mut ep, count))) } else { go_n(catch(|| w.gm.read_volatile_from(ga, &mut ep, count))) };
             st.free_result = true;
             let moved: usize = ep.calls.iter().map(|c| c.n).sum();
